@@ -113,7 +113,7 @@ func runC01(t *testing.T, seed uint64, m *Mask) *Report {
 				c.sa = s
 				// find the accepted session on b: the one whose remote address is our local address
 				want := s.LocalAddr().String()
-				e.Until(func() bool { return e.FindSession(peers[c.b], want) != nil })
+				e.Until(func() bool { s := e.FindSession(peers[c.b], want); return s != nil && s.Health() })
 				c.sb = e.FindSession(peers[c.b], want)
 			} else {
 				c.sa, c.sb, _, _ = e.ServePair(peers[c.a], peers[c.b], pf, pf)
@@ -153,6 +153,7 @@ func runC01(t *testing.T, seed uint64, m *Mask) *Report {
 		}
 		simrt.WaitCond(func() bool { return running == 0 })
 		simrt.WaitQuiescent()
+		e.CheckSettled("C01/task-stuck-at-quiescence")
 		checkC01(e, conns, ops)
 		e.CloseAll()
 	})
@@ -174,7 +175,7 @@ func checkC01(e *world.Env, conns []*c01Conn, ops []*world.Op) {
 	type seen struct {
 		n    int
 		ev   world.HandlerEvent
-		sess string
+		all  []string
 	}
 	byTag := map[string]*seen{}
 	for _, ev := range e.Obs.Handlers {
@@ -189,6 +190,7 @@ func checkC01(e *world.Env, conns []*c01Conn, ops []*world.Op) {
 		}
 		s.n++
 		s.ev = ev
+		s.all = append(s.all, fmt.Sprintf("step=%d sess=%s seq=%d method=%s", ev.Step, ev.Sess, ev.Seq, ev.Method))
 	}
 	for _, op := range ops {
 		if op.Dropped {
@@ -219,7 +221,7 @@ func checkC01(e *world.Env, conns []*c01Conn, ops []*world.Op) {
 			continue
 		}
 		if s.n > 1 {
-			e.Fail("C01/message-handled-twice", "op %s (%s) was handled %d times", op.Tag, cellInfo, s.n)
+			e.Fail("C01/message-handled-twice", "op %s (%s kind2=%s seq=%d) was handled %d times: %v", op.Tag, cellInfo, op.Kind, op.Seq, s.n, s.all)
 		}
 		// the handler must have seen exactly what was sent, on the right session
 		wantArg := world.ArgString(op)
